@@ -124,3 +124,49 @@ package db
 //@   loop 2 invariant[active]       forall c string :: {chActive(doc.Channels, c)} chActive(doc.Channels, c) <==> (old(chActive(doc.Channels, c)) && (c in newChannels)) || (c in #visited)
 //@   loop 2 invariant[removed-now]  forall c string :: {doc.Channels[c]} old(chActive(doc.Channels, c)) && !(c in newChannels) ==> doc.Channels[c] != nil && doc.Channels[c].Seq == old(doc.Sequence) && doc.Channels[c].Rev == old(doc.RevAndVersion) && doc.Channels[c].Deleted == old(doc.SyncData.hasFlag(channels.Deleted))
 //@   loop 2 invariant[removed-before] forall c string :: {doc.Channels[c]} old((c in doc.Channels) && doc.Channels[c] != nil) && !(c in newChannels) ==> doc.Channels[c] == old(doc.Channels[c])
+
+// ---- admin edits of a principal's per-collection channels (PUT /db/_user, _role) ----
+// For every (scope, collection) entry of `updates`: a nil entry clears the admin-assigned channels of exactly that
+// collection AND stamps the invalidation with the sequence of this update (so that the computed channels are rebuilt
+// by the next load: the revoke takes effect by the next request); a non-nil entry brings the set to the requested
+// members at that sequence and, if that changed anything, stores it and invalidates at that sequence.
+// (What SetCollectionExplicitChannels does with its arguments: roleImpl.SetCollectionExplicitChannels in
+// auth/zz_verif_c03.go. Path contract: the clauses are assertions at the call sites; the heap effect is not described;
+// scopeName / collectionName / updatedCollectionAccess are the key and value the two range loops produced.)
+//@ func DatabaseContext.UpdateCollectionExplicitChannels
+//@   modifies *
+//@   only-contracts none
+//@   before[clear-named]   call SetCollectionExplicitChannels#1 $0 == princ && $1 == scopeName && $2 == collectionName && updatedCollectionAccess == nil
+//@   before[clear-stamped] call SetCollectionExplicitChannels#1 $3 == nil && $4 == seq
+//@   before[clear-needed]  call SetCollectionExplicitChannels#1 callres(CollectionExplicitChannels, 1, 0) != nil
+//@   before[update-at-seq] call UpdateAtSequence#1 $2 == seq && $1 == updatedCollectionAccess.ExplicitChannels_ && $0 != nil && updatedCollectionAccess != nil
+//@   before[update-base]   call UpdateAtSequence#1 $0 == callres(CollectionExplicitChannels, 2, 0) || callres(CollectionExplicitChannels, 2, 0) == nil
+//@   before[store-named]   call SetCollectionExplicitChannels#2 $0 == princ && $1 == scopeName && $2 == collectionName && $3 == updatedExplicitChannels && $3 != nil
+//@   before[store-stamped] call SetCollectionExplicitChannels#2 $4 == seq && callres(UpdateAtSequence, 1, 0)
+
+// ---- which sync-function output reaches the document's channel / access / role bookkeeping ----
+// (path contracts: data flow only; getChannelsAndAccess, the sync function evaluation, is cwC18's trusted contract)
+
+// runSyncFn hands back the sync function's channel set, access map and role map in that order (results 2, 3, 4),
+// evaluated for the revision and body it was given; on rejection it hands back nothing.
+//@ func DatabaseCollectionWithUser.runSyncFn
+//@   modifies *
+//@   only-contracts none
+//@   propagates getChannelsAndAccess#1
+//@   before[evaluates-given] call getChannelsAndAccess#1 $2 == doc && $3 == body && $5 == newRevId
+//@   ensures[not-swapped] isNilErr(result5) ==> result2 == callres(getChannelsAndAccess, 1, 0) && result3 == callres(getChannelsAndAccess, 1, 1) && result4 == callres(getChannelsAndAccess, 1, 2) && result0 == callres(getChannelsAndAccess, 1, 3)
+//@   ensures[rejected]    !isNilErr(result5) ==> result2 == nil && result3 == nil && result4 == nil
+
+// recalculateSyncFnForActiveRev (an older leaf becomes the winning revision again): the channel set, access map and
+// role map it returns are the ones the sync function produced for the document's CURRENT winning revision
+// (doc.GetRevTreeID(), with that revision's stored body), in that order; any failure to load or evaluate that revision
+// surfaces (so that the caller does not go on with the output of the superseded revision); if the body is gone the
+// three are empty.
+//@ func DatabaseCollectionWithUser.recalculateSyncFnForActiveRev
+//@   modifies *
+//@   only-contracts none
+//@   propagates getAvailable1xRev#1 Unmarshal#1 getChannelsAndAccess#1
+//@   before[loads-winner]     call getAvailable1xRev#1 $2 == doc && $3 == callres(GetRevTreeID, 1, 0)
+//@   before[evaluates-winner] call getChannelsAndAccess#1 $2 == doc && $3 == curBody && $3 != nil && $4 == metaMap && $5 == callres(GetRevTreeID, 3, 0)
+//@   ensures[not-swapped]     called(getChannelsAndAccess, 1) ==> channelSet == callres(getChannelsAndAccess, 1, 0) && access == callres(getChannelsAndAccess, 1, 1) && roles == callres(getChannelsAndAccess, 1, 2) && syncExpiry == callres(getChannelsAndAccess, 1, 3) && err == callres(getChannelsAndAccess, 1, 5)
+//@   ensures[body-missing]    isNilErr(err) && !called(getChannelsAndAccess, 1) ==> channelSet == nil && access == nil && roles == nil
